@@ -531,28 +531,69 @@ def popWhile (depth : Nat) (mm : MinMax) : MinMax :=
   let n := mm.lastDepth - depth
   if depth < mm.lastDepth then { mm with offsets := mm.offsets.drop n, lastDepth := depth } else mm
 
-def minMaxStep (filter : Object → Bool) (mm : MinMax) (od : Object × Nat) : MinMax :=
+def i64Min : Int := -9223372036854775808
+def i64Max : Int := 9223372036854775807
+def fitsI64' (n : Int) : Bool := decide (i64Min ≤ n ∧ n ≤ i64Max)
+
+/-- `i64` arithmetic of the analysis: with overflow checks on (how `cargo build` compiles the
+    generator) an overflow is a panic. -/
+def ck (n : Int) : M Int := if fitsI64' n then .ok n else .error (.panic "arith_overflow")
+
+/-- `count.saturating_sub(1) as i64`: a `u64 → i64` cast wraps. -/
+def countMinus1AsI64 (count : Nat) : Int :=
+  let c := count - 1
+  if c < 2 ^ 63 then (c : Int) else (c : Int) - 2 ^ 64
+
+def sumChecked : List Int → Int → M Int
+  | [], acc => .ok acc
+  | x :: xs, acc =>
+    match ck (acc + x) with
+    | .error e => .error e
+    | .ok v => sumChecked xs v
+
+def minMaxStep (filter : Object → Bool) (mm : MinMax) (od : Object × Nat) : M MinMax :=
   let (o, depth) := od
   let mm := popWhile depth mm
-  if !filter o then mm else
-  let mm := match o.address with
+  if !filter o then .ok mm else
+  let upd : M MinMax := match o.address with
     | some address =>
       let rep := o.repeat_.getD ⟨1, 0⟩
-      let total := mm.offsets.foldl (· + ·) 0
-      let a0 := total + address
-      let aMax := a0 + ((rep.count - 1 : Nat) : Int) * rep.stride
-      { mm with min := Min.min (Min.min mm.min a0) aMax, max := Max.max (Max.max mm.max a0) aMax }
-    | none => mm
-  match o with
-  | .block h _ => { mm with offsets := h.addressOffset :: mm.offsets, lastDepth := mm.lastDepth + 1 }
-  | _ => mm
+      -- `address_offsets.iter().sum()` adds in insertion order (the stack is stored newest first)
+      match sumChecked mm.offsets.reverse 0 with
+      | .error e => .error e
+      | .ok total =>
+        match ck (total + address) with
+        | .error e => .error e
+        | .ok a0 =>
+          match ck (countMinus1AsI64 rep.count * rep.stride) with
+          | .error e => .error e
+          | .ok span =>
+            match ck (a0 + span) with
+            | .error e => .error e
+            | .ok aMax =>
+              .ok { mm with min := Min.min (Min.min mm.min a0) aMax, max := Max.max (Max.max mm.max a0) aMax }
+    | none => .ok mm
+  match upd with
+  | .error e => .error e
+  | .ok mm =>
+    match o with
+    | .block h _ => .ok { mm with offsets := h.addressOffset :: mm.offsets, lastDepth := mm.lastDepth + 1 }
+    | _ => .ok mm
+
+def minMaxFold (filter : Object → Bool) : List (Object × Nat) → MinMax → M MinMax
+  | [], mm => .ok mm
+  | od :: rest, mm =>
+    match minMaxStep filter mm od with
+    | .error e => .error e
+    | .ok mm' => minMaxFold filter rest mm'
 
 /-- The analysed (min, max) address over the objects selected by `filter`. Enclosing blocks
     contribute their `address_offset` but **not** their repeat stride; children behind a block
-    `ref` are not visited. -/
-def findMinMax (os : List Object) (filter : Object → Bool) : Int × Int :=
-  let mm := (flattenList 0 os).foldl (minMaxStep filter) {}
-  (mm.min, mm.max)
+    `ref` are not visited. Arithmetic is `i64` with overflow = panic. -/
+def findMinMax (os : List Object) (filter : Object → Bool) : M (Int × Int) :=
+  match minMaxFold filter (flattenList 0 os) {} with
+  | .error e => .error e
+  | .ok mm => .ok (mm.min, mm.max)
 
 def isBlock : Object → Bool | .block _ _ => true | _ => false
 
@@ -561,7 +602,7 @@ def addressTypesBigEnough (d : Device) : M Device := do
     match t with
     | none => pure ()
     | some ty => do
-      let (mn, mx) := findMinMax d.objects filter
+      let (mn, mx) ← findMinMax d.objects filter
       if ¬ (mn ≥ ty.minValue) then throw (passErr s!"addr_too_low_{kind}" [] [mn, ty.minValue])
       if ¬ (mx ≤ ty.maxValue) then throw (passErr s!"addr_too_high_{kind}" [] [mx, ty.maxValue])
   check "register" d.config.registerAddressType fun o => isBlock o || match o with
